@@ -50,6 +50,15 @@ ANY_VALUES = {"int": 12, "str": "plain", "bytes": b"\x00\xffraw", "big": 2 ** 70
               "intkeys": {1: "a", 2: "b"}, "set": {1, 2}, "frozenset": frozenset([1]), "bytearray": bytearray(b"ab"),
               "nested": {"a": [1, {"b": None}]}, "ustr": "caf\u00e9 \u2603", "inf": float("inf"), "complex": 1 + 2j,
               "float": -0.5, "none": None}
+# map keys that are not XML names (measured per key kind x format x container on the unchanged tree: JSON, BSON, pickle
+# and YAML carry all of them -- YAML sorts the keys --, XML refuses all but the last four and the destination stays as it was)
+DICT_KEYS = {"space": "max connections", "digit": "1abc", "gt": "a>b", "empty": "", "tab": "a\tb", "colon": "x:y", "dash": "-lead",
+             "lt": "a<b", "amp": "a&b", "quote": 'a"b', "slash": "a/b", "nl": "a\nb", "lead": " a", "num": "123", "eq": "a=b",
+             "uni": "caf\u00e9", "dot": "a.b", "xmlpfx": "xmlfoo", "uscore": "a_b"}
+_XML_NAME_KEYS = {"uni", "dot", "xmlpfx", "uscore"}
+for _n, _k in DICT_KEYS.items():
+    ANY_VALUES["key_" + _n] = {_k: "v1", "b": "v2"}
+ANY_VALUES["key_two"] = {"a  b": "v1", "a b": "v2", "a_b": "v3"}
 _TUPLES = {"tuple", "ntuple", "etuple", "list_tuple", "dict_tuple"}
 OUTSIDE = {k: set() for k in ANY_VALUES}
 for _k in ("bytes", "blist", "bytearray", "complex", "set", "frozenset"):
@@ -58,13 +67,19 @@ for _k in ("big", "bytearray", "complex", "set", "frozenset"):
     OUTSIDE[_k] |= {"bson"}
 for _k in _TUPLES | {"intkeys", "nul"}:
     OUTSIDE[_k] |= {"xml"}
+for _k in ANY_VALUES:
+    if _k.startswith("key_") and _k[4:] not in _XML_NAME_KEYS and _k != "key_gt":
+        OUTSIDE[_k] |= {"xml"}
 # the one normalisation a format applies on the way back: JSON and BSON have no tuple, a tuple loads as a list
 TUPLE_AS_LIST = {"json", "bson"}
 # (format, kind) outside the format's representable domain although dumps accepts it: maps with non-string keys
 # under JSON/BSON come back with string keys (XML refuses them, except a None key, which it drops).  C02/C04 speak
 # of string-keyed maps; ruled "observed, not counted" (reg_C19): kept out of the generated domain.  YAML and
 # pickle round-trip int keys and keep them.
-NOT_REPRESENTABLE = {("json", "intkeys"), ("bson", "intkeys")}
+NOT_REPRESENTABLE = {("json", "intkeys"), ("bson", "intkeys"),
+                     # reported, no ruling yet: under XML the key "a>b" SAVES (no escaping of '>' in a tag name) and loads
+                     # back as {'a': 'b type="str">v1'} -- kept out of the generated domain until ruled on
+                     ("xml", "key_gt")}
 UNTYPED = ("any", "ulist", "udict")
 SECRET_LENGTHS = [0, 1, 15, 16, 17, 31, 32, 33, 48]
 
@@ -140,7 +155,22 @@ for _n, (_m, _v) in list(TYPED.items()):
 # XML normalises line ends, '\r\n' and '\r' are read back as '\n'.  Everything else above round-trips exactly in all
 # five formats.  (Also measured, format-independent, not generated: a typed ListField / DictField that was never set
 # holds None and loads back as [] / {}.)
-TYPED_NOT_REPRESENTABLE = {("xml", "str_cr"), ("xml", "str_list_cr")}
+TYPED_NOT_REPRESENTABLE = {("xml", "str_cr"), ("xml", "str_list_cr"), ("xml", "sdict_key_gt")}
+# typed kinds a format's dumps refuses (the save must fail and leave the destination alone)
+TYPED_OUTSIDE = {}
+for _n, _k in DICT_KEYS.items():
+    TYPED["sdict_key_" + _n] = ("sdict", {_k: "v1", "b": "v2"})
+    PLAIN_VALUES["sdict_key_" + _n] = TYPED["sdict_key_" + _n][1]
+    PLAIN_FIELD["sdict_key_" + _n] = "sdict"
+    TYPED_OUTSIDE["sdict_key_" + _n] = set() if _n in _XML_NAME_KEYS or _n == "gt" else {"xml"}
+SAFE_KIND = {"str": "str_nl", "slist": "str_list", "sdict": "str_dict"}       # a representable kind of the same field type
+
+
+def outside(f, fmt):
+    """does the format's dumps refuse the value this field spec holds?"""
+    if f[0] in UNTYPED:
+        return fmt in OUTSIDE[f[2]]
+    return f[0] == "plain" and fmt in TYPED_OUTSIDE.get(f[2], ())
 
 # ---------------------------------------------------------------------------------------------
 # recording of opens: audit hook (installed once, cannot be removed) + builtins.open wrapper
@@ -269,10 +299,12 @@ def populate(cfg, fields, pre, real, inject, stepno=0, first=True):
                 sub._key_filename = real(f[2])
             populate(sub, f[3], dotted(pre, key), real, inject, stepno, first)
         elif kind == "list":
-            setattr(cfg, key, [{} for _ in f[3]])
+            cur = getattr(cfg, key)
+            if first or cur is None or len(cur) != len(f[3]):
+                setattr(cfg, key, [{} for _ in f[3]])       # else: the item objects of the previous save are kept
             items = list(getattr(cfg, key))
             for i, item_fields in enumerate(f[3]):
-                populate(items[i], item_fields, "%s[%d]" % (dotted(pre, key), i), real, inject, stepno, True)
+                populate(items[i], item_fields, "%s[%d]" % (dotted(pre, key), i), real, inject, stepno, first)
 
 
 def values_of(cfg, fields):
@@ -308,7 +340,8 @@ def rel_expanded(name):
 
 def steps_of(case):
     """the history of a case: its first save (the top-level keys) and whatever follows in case["more"]:
-    ("save", {fmt, fields, dest, fmtfault, faults}) | ("ext", name, bytes-or-None)"""
+    ("save", {fmt, fields, dest, fmtfault, faults[, root_kf]}) | ("ext", name, bytes-or-None).
+    A save with "root_kf" first re-assigns the ROOT configuration's key file name (cfg._key_filename = ...)."""
     first = {k: case[k] for k in ("fmt", "fields", "dest", "fmtfault", "faults")}
     return [("save", first)] + [tuple(st) for st in case.get("more", [])]
 
@@ -474,7 +507,8 @@ def impl(case):
         make_world(root, case)
         os.environ["HOME"] = os.path.join(root, "h")
         schema = build_schema(case["fields"])
-        cfg = schema(key_filename=real(case["root_kf"]))        # the one object every save of the history uses
+        root_kf = case["root_kf"]
+        cfg = schema(key_filename=real(root_kf))        # the one object every save of the history uses
         ur = _Urandom(case["rng"])
         orig_dumps = Config.dumps
         nsave = 0
@@ -491,6 +525,9 @@ def impl(case):
                 trace.append(("ext", [], contents(snapshot(root))))
                 continue
             step = st[1]
+            if step.get("root_kf") and step["root_kf"] != root_kf:
+                root_kf = step["root_kf"]
+                cfg._key_filename = real(root_kf)           # the root's key file is re-assigned; children must follow
             inject = {"stubs": {}, "cipher": set()}
             populate(cfg, step["fields"], "", real, inject, nsave, nsave == 0)
             before = snapshot(root)
@@ -536,7 +573,7 @@ def impl(case):
                 # as they are on disk now, the same IV stream
                 ur2 = _Urandom([])
                 ur2.iv = iv0
-                cfg2 = build_schema(case["fields"])(key_filename=real(case["root_kf"]))
+                cfg2 = build_schema(case["fields"])(key_filename=real(root_kf))
                 inject2 = {"stubs": {}, "cipher": set()}
                 populate(cfg2, step["fields"], "", real, inject2, nsave, True)
                 with _Patches(step, inject2, ur2):
@@ -551,7 +588,7 @@ def impl(case):
                     info["reload"] = "skipped"      # F34 region (C03): sub-configuration key files do not survive a load
                 else:
                     try:
-                        cfg3 = build_schema(case["fields"])(key_filename=real(case["root_kf"]))
+                        cfg3 = build_schema(case["fields"])(key_filename=real(root_kf))
                         cfg3.load(dest_real, step["fmt"])
                         info["reload"] = values_of(cfg3, step["fields"])
                     except Exception as e:  # noqa
@@ -601,14 +638,14 @@ def formatter_fails(step):
 
     def anyvals(fs):
         for f in fs:
-            if f[0] in UNTYPED:
-                yield f[2]
+            if f[0] in UNTYPED or f[0] == "plain":
+                yield f
             elif f[0] == "sub":
                 yield from anyvals(f[3])
             elif f[0] == "list":
                 for it in f[3]:
                     yield from anyvals(it)
-    return any(step["fmt"] in OUTSIDE[k] for k in anyvals(step["fields"]))
+    return any(outside(f, step["fmt"]) for f in anyvals(step["fields"]))
 
 
 def gcase(case):
@@ -627,6 +664,7 @@ def gcase(case):
         if d.startswith("nd/"):
             nowrite.append(g_str(d))
     steps = []
+    root_kf = case["root_kf"]
     for k, st in enumerate(steps_of(case)):
         if st[0] == "ext":
             rel = rel_expanded(st[1])
@@ -641,7 +679,8 @@ def gcase(case):
         else:
             ref = infos[k].get("ref") if k < len(infos) and infos[k] else None
             fmt = "(Some (fconst (Ok %s)))" % g_bytes(hashlib.sha1(ref if ref is not None else b"<no reference>").digest())
-        steps.append("SSave %s %s %s" % (_resolve(step["fields"], case["root_kf"]), g_str(step["dest"]), fmt))
+        root_kf = step.get("root_kf") or root_kf
+        steps.append("SSave %s %s %s" % (_resolve(step["fields"], root_kf), g_str(step["dest"]), fmt))
     world = "{| sv_files := %s; sv_nowrite := %s; sv_rng := %s; sv_log := [] |}" % (
         g_list(files), g_list(nowrite), g_list(case["rng"], g_bytes))
     return ("{| c_home := %s; c_world := %s; c_steps := %s; c_watch := %s |}" % (
@@ -740,8 +779,13 @@ def _same_values(a, b):
     if isinstance(a, (list, tuple)):
         return len(a) == len(b) and all(_same_values(x, y) for x, y in zip(a, b))
     if isinstance(a, dict):
-        return (len(a) == len(b) and all(_same_values(k1, k2) for k1, k2 in zip(a, b))
-                and all(_same_values(a[k], b[k]) for k in a))
+        if len(a) != len(b):
+            return False
+        for k in a:                                  # same keys (with their types), same values; order is not compared
+            match = [k2 for k2 in b if _same_values(k, k2)]
+            if len(match) != 1 or not _same_values(a[k], b[match[0]]):
+                return False
+        return True
     return a == b
 
 
@@ -953,7 +997,7 @@ def _avoid_pending(fields, fmt):
         if f[0] in UNTYPED and (fmt, f[2]) in NOT_REPRESENTABLE:
             out.append((f[0], f[1], "nested"))
         elif f[0] == "plain" and (fmt, f[2]) in TYPED_NOT_REPRESENTABLE:
-            out.append(("plain", f[1], "str_nl" if PLAIN_FIELD[f[2]] == "str" else "str_list", f[3]))
+            out.append(("plain", f[1], SAFE_KIND[PLAIN_FIELD[f[2]]], f[3]))
         elif f[0] == "sub":
             out.append(f[:3] + (_avoid_pending(f[3], fmt),))
         elif f[0] == "list":
@@ -981,7 +1025,8 @@ def roundtrip_matrix(formats):
             fields = [("plain", "a", "int", None), leaf,
                       ("sub", "sub", None, [leaf, ("sub", "deep", None, [leaf])]),
                       ("list", "items", [leaf, ("plain", "n", "int", None)], [[leaf, ("plain", "n", "int", None)]] * 2)]
-            cases.append(mkcase(fmt, fields, kind="roundtrip"))
+            cases.append(mkcase(fmt, fields, kind="roundtrip",
+                                faults=["domain:" + kind] if fmt in TYPED_OUTSIDE.get(kind, ()) else []))
         for method in ("aes", "best", "xor"):
             secs = [("secret", "s%d" % n, method, n, None) for n in SECRET_LENGTHS]
             fields = list(secs) + [("sub", "sub", None, list(secs) + [("sub", "deep", None, list(secs[2:7]))]),
@@ -1081,10 +1126,10 @@ def random_case(rng):
     for _, st in keyfiles:
         if st not in ("valid", "missing"):
             faults.append("keyfile-" + st)
-    for p, f in _paths(fields):
-        if f[0] in UNTYPED and fmt in OUTSIDE[f[2]]:
-            faults.append("domain:" + f[2])
     fields = _avoid_pending(fields, fmt)
+    for p, f in _paths(fields):
+        if outside(f, fmt):
+            faults.append("domain:" + f[2])
     dest = rng.choice(["d/dest.cfg", "d/dest.cfg", "d/other.bin", "~/dest.cfg", "nd/dest.cfg"])
     if dest.startswith("nd/"):
         prev = None
@@ -1101,8 +1146,11 @@ def random_case(rng):
 
 
 # ---- histories: several saves of ONE configuration object, files changed by others in between ----
-def save_step(fmt, fields, dest="d/dest.cfg", fmtfault=None, faults=()):
-    return ("save", {"fmt": fmt, "fields": fields, "dest": dest, "fmtfault": fmtfault, "faults": list(faults)})
+def save_step(fmt, fields, dest="d/dest.cfg", fmtfault=None, faults=(), root_kf=None):
+    d = {"fmt": fmt, "fields": fields, "dest": dest, "fmtfault": fmtfault, "faults": list(faults)}
+    if root_kf:
+        d["root_kf"] = root_kf
+    return ("save", d)
 
 
 def vkey(j):
@@ -1175,6 +1223,31 @@ def histories(formats):
         hist([("ext", "k/sub.key", vkey(9)), save_step(fmt, withsub), ("ext", "k/sub.key", vkey(10)), save_step(fmt, withsub),
               ("ext", K, vkey(11)), save_step(fmt, withsub)],
              fields=withsub, keyfiles=[(K, "valid"), ("k/sub.key", "short")], faults=["keyfile-short"])
+        # the ROOT's key file NAME is re-assigned between saves of one object: secrets at every depth (root, sub, two
+        # levels, list items, a sub-configuration inside a list item) must follow; a fresh configuration naming the
+        # CURRENT key file loads each saved file back
+        sec = lambda k, on=True: ("secret", k, "xor" if k.endswith("x") else "aes", on, None)       # noqa: E731
+        item = [("plain", "n", "int", None), sec("tokx"), ("sub", "inner", None, [sec("ina")])]
+
+        def deep(root_on=True):
+            return [sec("topx", root_on), ("plain", "a", "int", None),
+                    ("sub", "sub", None, [sec("s1a"), ("sub", "deep", None, [sec("s2x"), ("plain", "y", "str", None)])]),
+                    ("list", "items", item, [list(item), list(item)])]
+        K2 = "k/k2.key"
+        hist([save_step(fmt, deep(), root_kf=K2), save_step(fmt, deep(), root_kf=K), save_step(fmt, deep(), root_kf=K2)],
+             fields=deep(), keyfiles=[(K, "valid"), (K2, "valid")])
+        hist([save_step(fmt, deep(), root_kf=K2), save_step(fmt, deep()), save_step(fmt, deep(), root_kf=K)],
+             fields=deep(), keyfiles=[(K, "valid"), (K2, "missing")])
+        hist([save_step(fmt, deep(), root_kf="~/k3.key"), save_step(fmt, deep(), root_kf=K)],
+             fields=deep(), keyfiles=[(K, "missing"), ("~/k3.key", "missing")])
+        for st, name in (("short", K2), ("empty", K2), ("nodir", "nk/k2.key")):
+            # re-assigned to an unusable key file: the save must fail and leave the destination alone -- also when only
+            # NESTED secrets are set (the root's own secret empty), then back to the good one
+            hist([save_step(fmt, deep(), root_kf=name, faults=["keyfile-" + st]),
+                  save_step(fmt, deep(False), faults=["keyfile-" + st]), save_step(fmt, deep(), root_kf=K)],
+                 fields=deep(), keyfiles=[(K, "valid"), (name, st)])
+            hist([save_step(fmt, deep(False), root_kf=name, faults=["keyfile-" + st]), save_step(fmt, deep(False), root_kf=K)],
+                 fields=deep(False), keyfiles=[(K, "valid"), (name, st)])
     return cases
 
 
@@ -1200,6 +1273,10 @@ def _clear_faults(fields):
 def random_history(rng):
     c = random_case(rng)
     c["kind"] = "random-history"
+    alt = ("k/alt.key", rng.choice(["valid", "valid", "missing", "short"]))
+    c["keyfiles"].append(alt)
+    c["rng"].append(bytes(rng.getrandbits(8) for _ in range(32)))
+    roots = [c["root_kf"], alt[0]]
     kstate = dict(c["keyfiles"])
     usable = [n for n, st in c["keyfiles"] if st != "nodir"]
     dests = [d for d in ["d/dest.cfg", "d/other.bin", "~/dest.cfg"]]
@@ -1248,12 +1325,13 @@ def random_history(rng):
                     faults.append("keyfile-" + st)
             fields = _avoid_pending(fields, fmt)
             for _, f in _paths(fields):
-                if f[0] in UNTYPED and fmt in OUTSIDE[f[2]]:
+                if outside(f, fmt):
                     faults.append("domain:" + f[2])
             dest = rng.choice(dests + [c["dest"], c["dest"], "nd/dest.cfg"])
             if dest.startswith("nd/"):
                 faults.append("dest-open")
-            more.append(save_step(fmt, fields, dest=dest, fmtfault=fmtfault, faults=faults))
+            more.append(save_step(fmt, fields, dest=dest, fmtfault=fmtfault, faults=faults,
+                                  root_kf=rng.choice(roots) if rng.random() < 0.35 else None))
     c["more"] = more
     nsaves = 1 + sum(1 for st in more if st[0] == "save")
     draws += nsaves * sum(1 for _, st in c["keyfiles"] if st == "nodir")     # a failed creation consumes its draw
